@@ -31,7 +31,7 @@ func (p *peer) someQuestionID() uint32 {
 
 func (p *peer) hostileMove() string {
 	s := p.r.s
-	kind := s.Choice("hostile-kind", 24)
+	kind := s.Choice("hostile-kind", 26) // (24, 25 added later: older tapes keep their meaning)
 	var what string
 	switch kind {
 	case 0: // Return for a question the Conn never asked / already answered
@@ -61,6 +61,26 @@ func (p *peer) hostileMove() string {
 			f.SetReleaseResultCaps(s.Choice("h-rrc", 2) == 1)
 			return nil
 		}))
+	case 24, 25: // Finish(releaseResultCaps) for a running call that returns a fresh capability, plus a Release
+		// for the export id that Return is going to introduce: if the Release is handled while the
+		// Return is being written, tearing the answer down afterwards fails inside answer.Return
+		var tq *myQuestion
+		for _, id := range p.order {
+			if q := p.myQ[id]; q.kind == "call" && q.flags&fRetFresh != 0 && !q.returned && !q.finishSent {
+				tq = q
+			}
+		}
+		next := uint32(0)
+		for ; next < 64; next++ {
+			if e := p.exports[next]; e == nil || e.refs <= 0 {
+				break
+			}
+		}
+		if tq != nil {
+			p.finish(tq, true)
+		}
+		what = fmt.Sprintf("Release id=%d count=1 (the export a pending Return will introduce; finished question: %v)", next, tq != nil)
+		p.send(what, p.build(releaseMsg(next, 1)))
 	case 2: // Release of an unknown export / too many references
 		id := uint32(s.Choice("h-exp", 6))
 		n := uint32([]int{0, 1, 2, 1000, 1 << 31}[s.Choice("h-relcount", 5)])
